@@ -131,6 +131,21 @@ def check_case(rec, case):
             if not o.ok:
                 report_failure(rec, o, 'pda_accepts_word', word=w, limit=case['limit'])
                 break
+        # the same questions with the library's global logging switch on (round 14, C09_l: a trace line that consumes the generator of
+        # successor configurations); judged by the same contract, trace output swallowed
+        old_log = GambaTools.enable_logging
+        try:
+            GambaTools.enable_logging = True
+            for w in words[:24]:
+                with common.captured():
+                    o = call(pa.pda_accepts_word, P, w)
+                rec.counters['calls_with_logging_on'] += 1
+                if not o.ok:
+                    if o.kind != 'timeout':
+                        report_failure(rec, o, 'pda_accepts_word', word=w, limit=case['limit'], logging=True)
+                    break
+        finally:
+            GambaTools.enable_logging = old_log
         if case.get('requery') and len(RP[0]) >= 2:
             # the same OBJECT after an in-place change (acceptance toggled, a move dropped)
             q = sorted(P.Q)[-1]
